@@ -97,6 +97,14 @@ def cases(tier, seed, shard, nshards):
     rng = random.Random(f"C08-{seed}-{shard}")
     import itertools as _it
     k = 0
+    for flav in ("async_class", "async_gen", "async_class_bare"):
+        for taken in (0, 1, 2):
+            for how in ("normal", "exception", "cancel"):
+                if how == "cancel" and flav == "async_gen":
+                    continue  # a generator cancelled inside its own await dies with the cancellation
+                k += 1
+                if k % nshards == shard:
+                    yield {"kind": "borrowed", "flav": flav, "taken": taken, "how": how, "keys": [0, 1, 2, 3, 0, 1]}
     for depth in (2, 3):
         for order in _it.permutations(range(depth)):
             for flav in ("async_class", "async_gen", "slowclose"):
@@ -345,7 +353,67 @@ def run_manual(case, stats):
     return {"violations": viols, "evals": 1, "sigs": [("manual", str(case))]}
 
 
+def run_borrowed(case, stats):
+    """scoped_iter over an explicitly borrowed handle: the scope ends that handle, never what lies beneath."""
+    CTX.reset()
+    keys = case["keys"]
+    susp = 1 if case["how"] == "cancel" else 0
+    st = SrcState(0, [Item(k, (0, i)) for i, k in enumerate(keys)], Plan(susp), log=False)
+    under = make_source(st, case["flav"])
+    viols = []
+    head = f"scoped_iter over a borrowed handle {case}"
+    exc = Cancel()
+
+    async def main():
+        b1 = A.borrow(under)
+        try:
+            async with A.scoped_iter(b1) as h:
+                for _ in range(case["taken"]):
+                    await h.__anext__()
+                if case["how"] == "exception":
+                    raise BlockError("leave")
+                await h.__anext__()
+        except (BlockError, Cancel):
+            pass
+        pos = st.pos
+        for name, handle in (("scoped handle", h), ("borrowed handle", b1)):
+            try:
+                item = await handle.__anext__()
+                viols.append({"key": "scoped_iter/borrowed-handle-alive-after-exit",
+                              "msg": f"{head}: the {name} gave {item} after the block was left"})
+                return
+            except StopAsyncIteration:
+                pass
+        if st.pos != pos:
+            viols.append({"key": "scoped_iter/borrowed-handle-alive-after-exit", "msg": f"{head}: a dead handle advanced the underlying"})
+        if st.closed or (st.finished_gen() and not st.ended):
+            viols.append({"key": "scoped_iter/scope-over-borrowed-closed-the-underlying",
+                          "msg": f"{head}: the iterator beneath the borrowed handle was closed"})
+        else:
+            # the owner still gets the rest
+            try:
+                nxt = await under.__anext__()
+                if nxt.uid != (0, st.pos - 1):
+                    viols.append({"key": "scoped_iter/handle-sequence", "msg": f"{head}: owner got {nxt}"})
+            except StopAsyncIteration:
+                if st.pos < len(keys):
+                    viols.append({"key": "scoped_iter/scope-over-borrowed-closed-the-underlying", "msg": f"{head}: owner iterator ended early"})
+
+    n = 0
+    if case["how"] == "cancel":
+        # cancel at the first suspension after the taken items
+        drive(main(), cancel_at=case["taken"] + 1, cancel_exc=exc)
+    else:
+        drive(main())
+    if CTX.foreign:
+        viols.append({"key": "scoped_iter/foreign-suspension", "msg": CTX.foreign[0]})
+    stats["scopes_over_borrowed_handles"] += 1
+    return {"violations": viols, "evals": 1, "sigs": [("borrowed", str(case))]}
+
+
 def run_case(case, stats: Counter):
+    if case.get("kind") == "borrowed":
+        return run_borrowed(case, stats)
     if case.get("kind") == "manual":
         return run_manual(case, stats)
     viols_all = []
@@ -392,7 +460,7 @@ def run_case(case, stats: Counter):
 
 def finish(stats, tier):
     for need in ("exit_normal", "exit_exception", "exit_cancel", "inner_scope_exits", "depth_2", "depth_3", "tool_applications",
-                 "left_by_GeneratorExit", "left_by_BaseException", "left_by_thrown_GeneratorExit", "non_lifo_exit_orders"):
+                 "left_by_GeneratorExit", "left_by_BaseException", "left_by_thrown_GeneratorExit", "non_lifo_exit_orders", "scopes_over_borrowed_handles"):
         if not stats.get(need):
             return f"deciding counter {need} is zero"
     return None
